@@ -517,7 +517,9 @@ def bounds(tier, h):
             return 1, "instruction"
         return (1, "instruction") if not three else (1, "line")
     if kind == "H1":
-        return 3, "instruction"
+        # the get-two program has twice the scheduling points of the others: its pairs stay at bound 2
+        # (bound 3 did not finish within 15 minutes on 16 cores)
+        return (2 if "get-two" in h[1] else 3), "instruction"
     if kind == "H2":
         return 2, "instruction"
     return (2, "instruction") if not three else (2, "line")
